@@ -6,6 +6,7 @@ CONSTANTS
   MaxBurst = 2
   MaxMsgs = 4
   Depth = 5
+  Focus = FALSE
 INVARIANT Inv
 CONSTRAINT EmitAll
 CHECK_DEADLOCK FALSE
